@@ -289,6 +289,20 @@ class Body:
     def _build_cfg(self):
         self.succ = [[] for _ in range(self.n)]  # (target, label)
         self.pred = [[] for _ in range(self.n)]
+        # locals assigned exactly once, by a literal constant (e.g. `cfg!(debug_assertions)`)
+        nassign = defaultdict(int)
+        cval = {}
+        for blk in self.blocks:
+            for s in blk["stmts"]:
+                if s["k"] == "assign" and not s["pl"]["p"]:
+                    nassign[s["pl"]["l"]] += 1
+                    rv = s["rv"]
+                    if rv["k"] == "use" and rv["op"]["k"] == "const" and "bits" in rv["op"] and "item" not in rv["op"] and "static" not in rv["op"]:
+                        cval[s["pl"]["l"]] = rv["op"]["bits"]
+            t = blk["term"]
+            if t["k"] == "call" and not t["dest"]["p"]:
+                nassign[t["dest"]["l"]] += 2
+        const_local = {l: v for l, v in cval.items() if nassign[l] == 1}
         for i, blk in enumerate(self.blocks):
             t = blk["term"]
             k = t["k"]
@@ -297,6 +311,8 @@ class Body:
                 edges.append((t["target"], ("goto",)))
             elif k == "switch":
                 op = t["op"]
+                if op["k"] in ("copy", "move") and not op["pl"]["p"] and op["pl"]["l"] in const_local:
+                    op = {"k": "const", "bits": const_local[op["pl"]["l"]]}
                 if op["k"] == "const" and "bits" in op and "item" not in op:
                     # constant condition (cfg!(debug_assertions) in `debug_assert!`): only the
                     # matching edge is feasible, so compiled-out material is never a guard
